@@ -711,6 +711,9 @@ fn run_case(ctx: &CaseCtx, stats: &mut Stats, out: &mut Vec<Violation>, harness:
                     }));
                     HEARTBEAT.fetch_add(1, Ordering::Relaxed);
                     if let Ok(r) = r {
+                        if let Some(m) = &r.obs.panic {
+                            push_v(out, stats, viol(ctx, vi, "C09", format!("panic: {}", m), input, "new", "".into(), show_calls(&r.calls)));
+                        }
                         variants.push(("new", text, r.calls));
                     }
                 }
@@ -732,7 +735,12 @@ fn run_case(ctx: &CaseCtx, stats: &mut Stats, out: &mut Vec<Violation>, harness:
                             if let Some(m) = &r.obs.panic {
                                 if m.contains(READ_BUDGET_MSG) {
                                     push_v(out, stats, viol(ctx, vi, "C09", format!("more than {} characters pulled from the input for {} characters", limit, n), input, name, "".into(), m.clone()));
+                                } else {
+                                    push_v(out, stats, viol(ctx, vi, "C09", format!("panic: {}", m), input, name, "".into(), show_calls(&r.calls)));
                                 }
+                            }
+                            if r.obs.overflow_items || r.obs.after_none_some > 0 {
+                                push_v(out, stats, viol(ctx, vi, if r.obs.overflow_items { "C09" } else { "C05" }, "item count / fused-stream invariant broken".to_string(), input, name, "".into(), show_calls(&r.calls)));
                             }
                             stats.max("max_reads_per_char_x100", counter.get() * 100 / (n as u64 + 1));
                             variants.push((name, false, r.calls));
@@ -824,8 +832,20 @@ fn run_case(ctx: &CaseCtx, stats: &mut Stats, out: &mut Vec<Violation>, harness:
                     if let Some(pv) = &primary_calls[vi] {
                         let itemsv: Vec<Option<Item>> = pv.iter().map(|c| c.1.clone()).collect();
                         stats.inc("variant_comparisons", 1);
-                        if items0 != itemsv {
-                            let label = entry.variants[vi].0;
+                        let label = entry.variants[vi].0;
+                        // equivalent regexes have different automata: where an error is *located*
+                        // is C07's business, so partners are compared modulo error locations
+                        let strip = |v: &Vec<Option<Item>>| -> Vec<Option<Item>> {
+                            v.iter()
+                                .map(|i| match i {
+                                    Some(Item::ErrInvalid { .. }) => Some(Item::ErrInvalid { loc: Default::default() }),
+                                    Some(Item::ErrCustom { payload, .. }) => Some(Item::ErrCustom { loc: Default::default(), payload: *payload }),
+                                    o => o.clone(),
+                                })
+                                .collect()
+                        };
+                        let differ = if label.starts_with("equiv") { strip(&items0) != strip(&itemsv) } else { items0 != itemsv };
+                        if differ {
                             let prop = if label.starts_with("equiv") {
                                 "C02"
                             } else if label.starts_with("desugar") {
